@@ -62,6 +62,14 @@ Theorem C20_reject_invisible : forall hc st l ty name sn org dflt kw ds cast st'
   /\ (forall l2 f2, l2 <> l -> lf_at st l2 = Some f2 -> lf_at st' l2 = Some f2 /\ vis st' (l_reg f2) = vis st (l_reg f2)).
 Proof. exact add_common_reject_invisible. Qed.
 
+(* with ONE logical file (the usual case) the hypothesis holds in every reachable state: unconditional *)
+Theorem C20_single_lf_reject_invisible : forall ops ps hc l ty name sn org dflt kw ds cast st' e f,
+  let st := bstate_of (run_ops ps b_init ops) in
+  b_lfs st = [f] ->
+  add_common hc st l ty name sn org dflt kw ds cast = (st', Rejected e) ->
+  l = 0%nat -> exists f', lf_at st' 0 = Some f' /\ vis st' (l_reg f') = vis st (l_reg f).
+Proof. exact single_lf_reject_invisible. Qed.
+
 (* Inv_reg holds in every reachable state, and the logical files' registries are sub-registries of the physical one *)
 Theorem C20_registries_reachable : forall ops ps,
   let st := bstate_of (run_ops ps b_init ops) in Inv_reg st /\ Inv_sub st.
@@ -73,3 +81,4 @@ Print Assumptions C20_reject.
 Print Assumptions C20_copy_numbers.
 Print Assumptions C20_reject_invisible.
 Print Assumptions C20_registries_reachable.
+Print Assumptions C20_single_lf_reject_invisible.
